@@ -58,6 +58,14 @@ static struct
     size_t mbeg, mlen;     // mapped region (offset, length)
 } orc[MAXR];
 static unsigned long n_oracle_fail;
+static int frame_mode; // C05: writes are whole frames (multiples of 8), readers consume up to frame boundaries
+
+static int is_boundary(size_t j)
+{
+    for (size_t b = 0; b < nbounds; ++b)
+        if (bounds[b] == j) return 1;
+    return 0;
+}
 
 static unsigned char payload(size_t j)
 {
@@ -132,6 +140,7 @@ static void do_wmap(size_t n)
     size_t beg = (size_t)(p - ch.data);
     // C02: inside the buffer
     if (beg + n > ch.capacity) oracle_fail("write-region-outside-buffer", (long)beg, (long)n, (long)ch.capacity);
+    if (frame_mode && beg % 8) oracle_fail("frame-write-misaligned", (long)beg, (long)n, 0);
     for (int r = 0; r < nrd; ++r) {
         // C02: not overlapping a mapped reader region
         if (orc[r].mapped && beg < orc[r].mbeg + orc[r].mlen && orc[r].mbeg < beg + n)
@@ -185,6 +194,7 @@ static void after_read_map(int r, struct slice sl, int was_mapped)
     printf("slice %zu %zu st=%d", beg, len, (int)rd[r].status);
     if (len) {
         if (beg + len > ch.capacity) oracle_fail("read-region-outside-buffer", r, (long)beg, (long)len);
+        if (frame_mode && beg % 8) oracle_fail("frame-region-misaligned", r, (long)beg, (long)len);
         if (!orc[r].resolved) {
             // C01: the reader starts at a write boundary no later than its join
             int found = 0;
@@ -201,6 +211,8 @@ static void after_read_map(int r, struct slice sl, int was_mapped)
             if (orc[r].idx + len > total) oracle_fail("read-region-beyond-committed", r, (long)orc[r].idx, (long)len);
             else if (beg + len <= ch.capacity && memcmp(ch.data + beg, stream + orc[r].idx, len) != 0)
                 oracle_fail("read-bytes-not-next-in-stream", r, (long)beg, (long)orc[r].idx);
+            if (frame_mode && !(is_boundary(orc[r].idx) && is_boundary(orc[r].idx + len)))
+                oracle_fail("frame-region-not-whole-frames", r, (long)orc[r].idx, (long)len);
             printf(" ix=%zu", orc[r].idx);
         }
         orc[r].mapped = 1; orc[r].mbeg = beg; orc[r].mlen = len;
@@ -258,6 +270,7 @@ int main(void)
         char op[32]; long a = 0, b = 0;
         int n = sscanf(line, "%31s %ld %ld", op, &a, &b);
         if (n < 1) continue;
+        if (!strcmp(op, "framemode") && n == 2) { frame_mode = (int)a; continue; }
         if (!strcmp(op, "new") && n == 2) do_new((size_t)a);
         else if (!have_channel) { printf("bad-op\n"); continue; }
         else if (!strcmp(op, "wmap") && n == 2) do_wmap((size_t)a);
